@@ -146,13 +146,36 @@ func (s *Sim) preimageOf(hash [32]byte) ([32]byte, bool) {
 // the CSV delay and not before), and there must be a resolution for exactly
 // the outputs the model says x owns on that commitment.
 func (s *Sim) CheckLocalClose(x int) (CloseStats, error) {
+	ch, err := s.Sides[x].LoadFresh()
+	if err != nil {
+		return CloseStats{}, violationf("%s: reload failed: %v",
+			sideName(x), err)
+	}
+
+	return s.checkLocalClose(x, ch, sideName(x))
+}
+
+// CheckLocalCloseLive is CheckLocalClose on the live channel object of x
+// instead of a freshly loaded one. It is meant for the window in which the
+// two differ: between accepting a new commitment signature and revoking the
+// old commitment, when the in-memory local chain is one commitment ahead of
+// the durable one. What ForceClose returns there must still be the durable
+// commitment with resolutions that spend it.
+func (s *Sim) CheckLocalCloseLive(x int) (CloseStats, error) {
+	ch := s.Sides[x].Chan
+	cs, err := s.checkLocalClose(x, ch, sideName(x)+" (live object)")
+	// ForceClose marks the object closed (only cooperative close
+	// consults the mark); undo it, the schedule goes on.
+	ch.VerifClearClosed()
+
+	return cs, err
+}
+
+func (s *Sim) checkLocalClose(x int, ch *lnwallet.LightningChannel,
+	name string) (CloseStats, error) {
+
 	var cs CloseStats
 	side := s.Sides[x]
-	name := sideName(x)
-	ch, err := side.LoadFresh()
-	if err != nil {
-		return cs, violationf("%s: reload failed: %v", name, err)
-	}
 	st := ch.State()
 	if st.LocalCommitment.CommitHeight == 0 {
 		// The height-0 commitment carries the fixture's dummy
